@@ -67,7 +67,42 @@ pub fn buffer_of(c: &Case) -> String {
     let b = crate::gen::build::build(&c.entropy, &g);
     let mut f = crate::gen::trivia::RandFiller::new(&c.trivia, cfg);
     let (proj, _) = b.prog.render_with(&mut f);
-    proj.main_text().to_string()
+    let text = proj.main_text().to_string();
+    if !c.non_ascii || c.trivia.first().map(|t| t % 2 == 0).unwrap_or(true) {
+        return text;
+    }
+    // A column-aligned source: long runs of blanks between the mnemonic and its operand and in front of the comments, which
+    // hold runs of characters of one script (the formatter removes most of those blanks: the edits have to cut them out
+    // from between multi-byte characters).
+    let words = ["ループスプライトを変えるループ", "амб во юед и егхы", "été écran tête zéro chaîne", "«»µ· ¶¡® ©¿±", "の色"];
+    let mut out = String::new();
+    let mut in_block = false;
+    for (i, line) in text.split('\n').enumerate() {
+        let was_in_block = in_block;
+        let opens = line.matches("/*").count();
+        let closes = line.matches("*/").count();
+        if opens > closes {
+            in_block = true;
+        } else if closes > opens {
+            in_block = false;
+        }
+        let plain = !was_in_block && !in_block && !line.contains('"') && !line.contains("/*") && !line.contains("//") && !line.trim().is_empty();
+        if plain {
+            let indent = line.len() - line.trim_start().len();
+            let body = line.trim();
+            let widened = match body.split_once(' ') {
+                Some((a, b)) if !a.ends_with(':') => format!("{}{}{}", a, " ".repeat(20 + (i * 7) % 13), b.trim_start()),
+                _ => body.to_string(),
+            };
+            let w = words[(i + c.trivia.len()) % words.len()];
+            out.push_str(&format!("{}{}{}// {}", " ".repeat(indent + 8), widened, " ".repeat(15 + (i * 5) % 11), w));
+        } else {
+            out.push_str(line);
+        }
+        out.push('\n');
+    }
+    out.pop();
+    out
 }
 
 pub fn prop(c: &Case, log: &mut CaseLog) -> Verdict {
@@ -199,7 +234,7 @@ pub fn strategy(non_ascii: bool, crlf: bool) -> impl Strategy<Value = Case> {
 }
 
 pub fn run_check(ctx: &mut Ctx) {
-    ctx.rule = "error-free buffers = generator programs rendered with arbitrary spacing, block/line/multi-line comments, CRLF, case flips (ASCII in the clean campaign; non-ASCII BMP and astral text in comments in the feature campaign), 1 in 8 already formatted; sent to a long-lived `mos lsp` server as didOpen/didChange followed by textDocument/formatting or onTypeFormatting; oracle: edits ordered, non-overlapping, in range (UTF-16 columns) and, applied in the standard manner, equal to the file `mos format` writes for the same text. non-trivial = buffer differs from its formatted form".into();
+    ctx.rule = "error-free buffers = generator programs rendered with arbitrary spacing, block/line/multi-line comments, CRLF, case flips (ASCII in the clean campaign; non-ASCII BMP and astral text in comments in the feature campaign, half of it laid out in columns with long runs of blanks next to runs of Cyrillic, CJK or accented text), 1 in 8 already formatted; sent to a long-lived `mos lsp` server as didOpen/didChange followed by textDocument/formatting or onTypeFormatting; oracle: edits ordered, non-overlapping, in range (UTF-16 columns) and, applied in the standard manner, equal to the file `mos format` writes for the same text. non-trivial = buffer differs from its formatted form".into();
     if !have_mos() {
         ctx.health(false, "mos binary not built (MOS_BIN)");
         return;
